@@ -147,7 +147,8 @@ def tuples(tier):
     if tier == "quick":
         plans = [(small_t + T[2], small_e, False), (small_t, small_e, True)]
     else:
-        plans = [(small_t + T[2], small_e + E[2], False), (small_t + T[2], small_e, True)]
+        # every 6th two-operator expression: the full product (2.8e8 calls) takes about two hours
+        plans = [(small_t + T[2], small_e + E[2][::6], False), (small_t + T[2], small_e, True)]
     for ts, es, with_pre in plans:
         n_small = len(small_t)
         for ti, t in enumerate(ts):
@@ -165,7 +166,7 @@ def bounds(tier):
     T, E = spaces()
     return {"templates<=1op": len(T[0]) + len(T[1]), "templates_2op": len(T[2]),
             "expressions<=1op": len(E[0]) + len(E[1]), "expressions_2op": len(E[2]),
-            "pairs": "T<=2 x E<=1" if tier == "quick" else "T<=2 x E<=2",
+            "pairs": "T<=2 x E<=1" if tier == "quick" else "T<=2 x (E<=1 + every 6th expression with 2 operators)",
             "free_sets": "default + up to 6 explicit", "pre_matches": len(PRE) - 1}
 
 
